@@ -36,7 +36,7 @@ func (x *exec) semiOf(v value) ([]schar, bool) {
 		if s.k != types.String {
 			return nil, false
 		}
-		ps, ok := x.tb.Pieces(s.t)
+		ps, ok := x.flatPieces(s.t)
 		if !ok {
 			return nil, false
 		}
@@ -51,6 +51,30 @@ func (x *exec) semiOf(v value) ([]schar, bool) {
 			}
 		}
 		return out, true
+	}
+	return nil, false
+}
+
+// flatPieces flattens a string term into constants and single symbolic characters; joined
+// strings ite(c, a, b) (state merging) are resolved by deciding c.
+func (x *exec) flatPieces(t *smt.Term) (out []*smt.Term, ok bool) {
+	switch {
+	case t.IsConst(), x.tb.IsUnit(t):
+		return []*smt.Term{t}, true
+	case t.Op == "str.++":
+		for _, a := range t.Args {
+			p, ok := x.flatPieces(a)
+			if !ok {
+				return nil, false
+			}
+			out = append(out, p...)
+		}
+		return out, true
+	case t.Op == "ite" && t.Sort == smt.Str:
+		if x.decide(t.Args[0]) {
+			return x.flatPieces(t.Args[1])
+		}
+		return x.flatPieces(t.Args[2])
 	}
 	return nil, false
 }
@@ -572,6 +596,19 @@ func init() {
 			i = j
 		}
 		return out
+	}
+	symModels["strconv.FormatBool"] = func(fr *frame, args []value) value {
+		// decided (forked) so that the text stays concrete
+		if b, ok := args[0].(bool); ok {
+			if b {
+				return "true"
+			}
+			return "false"
+		}
+		if fr.i.x.decide(fr.i.x.term(args[0])) {
+			return "true"
+		}
+		return "false"
 	}
 	symModels["strings.Join"] = func(fr *frame, args []value) value {
 		x := fr.i.x
